@@ -25,7 +25,7 @@ class Arr:
         self.stores.append((k, v))
 
 
-def proved(run):
+def simple_faithful(run):
     name = "C14/field_wfsa.WFSA.simple/faithful"
     run.trust("pyvc symbolic interpreter over the real AST", f"z3 {z3.get_version_string()}",
               "numpy contract A7: np.full(shape, v) takes the dtype of v (int -> integer array, truncating stores) unless dtype= is given")
@@ -89,3 +89,43 @@ def proved(run):
         run.obligation(name, "out-of-subset", detail="vacuous: fewer than three stores observed")
     else:
         run.obligation(name, "proved", backend="pyvc+z3", detail=f"{n} stores (start, arc, stop): each array element receives exactly the automaton's weight")
+
+
+def eq_hash_glue(run):
+    """C14/field_wfsa.<cls>.__eq__/is-counterexample-none and .../__hash__/eq-compatible (auxiliary, read off the AST of the current
+    source): equality of automata IS the outcome of the equivalence test (`counterexample(other) is None`, on the dense forms), and the
+    hash cannot separate equivalent automata (the dense form hashes to a constant; the automaton hashes its dense form).  Any other
+    definition withdraws this glue: the bounded pairs decide."""
+    import ast
+    want = {
+        ("WFSA", "__eq__"): ["return self.simple == other.simple"],
+        ("WFSA", "__hash__"): ["return hash(self.simple)"],
+        ("WFSA", "counterexample"): ["return self.simple.counterexample(other.simple)"],
+        ("Simple", "__eq__"): ["return self.counterexample(other) is None"],
+        ("Simple", "__hash__"): None,       # any constant
+    }
+    for (cls, m), bodies in want.items():
+        name = f"C14/field_wfsa.{cls}.{m}/" + ("eq-compatible" if m == "__hash__" else "delegates-to-equivalence-test" if m != "__eq__" else "is-counterexample-none")
+        try:
+            fn = source.find(REL, f"{cls}.{m}")
+        except KeyError:
+            run.obligation(name, "refuted", role="auxiliary", backend="ast", detail=f"{cls}.{m} is not defined (object identity would be used)",
+                           replay=dict(replayed=False), signature=f"{cls}.{m}:glue")
+            continue
+        run.function_under_contract(f"genlm.grammar.wfsa.field_wfsa.{cls}.{m}", source.sha(fn))
+        stmts = [st for st in fn.body if not (isinstance(st, ast.Expr) and isinstance(st.value, ast.Constant))]
+        src = [ast.unparse(st) for st in stmts]
+        if bodies is None:
+            ok = len(stmts) == 1 and isinstance(stmts[0], ast.Return) and isinstance(stmts[0].value, ast.Constant)
+        else:
+            ok = src == bodies
+        if ok:
+            run.obligation(name, "proved", role="auxiliary", backend="ast", detail="; ".join(src))
+        else:
+            run.obligation(name, "refuted", role="auxiliary", backend="ast", detail="body is " + "; ".join(src)[:160],
+                           replay=dict(replayed=False, body=src), signature=f"{cls}.{m}:glue")
+
+
+def proved(run):
+    simple_faithful(run)
+    eq_hash_glue(run)
